@@ -187,6 +187,15 @@ impl Prop for C18 {
 		)
 			.prop_map(|(m, b64, d)| Case { input: Input::Text(format!("data:{m}{},{d}", if b64 { ";base64" } else { "" })) });
 		let shaped = data_url().prop_map(|s| Case { input: Input::Text(s) });
+		// long media types (around 255 bytes) and long payloads with inner padding on block boundaries
+		let long = (select(vec![200usize, 250, 254, 255, 256, 257, 262, 263, 264, 300, 1000]), any::<bool>(), select(vec![1usize, 2, 4, 3070, 3071, 3072, 6142, 6143]), any::<bool>(), vec(any::<u8>(), 0..8)).prop_map(|(ml, b64, n1, two, tail)| {
+			let media = format!("a/{}", "m".repeat(ml.saturating_sub(2)));
+			let mut data = base64::encode(&vec![0x5au8; n1]);
+			if two {
+				data.push_str(&base64::encode(if tail.is_empty() { b"tail" } else { &tail }));
+			}
+			Case { input: Input::Text(format!("data:{media}{},{data}", if b64 { ";base64" } else { "" })) }
+		});
 		let mutants = (data_url(), vec(gen::edit(), 1..=3)).prop_map(|(s, e)| Case { input: Input::Text(gen::apply_edits(&s, &e)) });
 		let other = gen::reference(Opt::new(Fam::Uri), true).prop_map(|s| Case { input: Input::Text(s) });
 		let bytes = (data_url(), vec(any::<u8>(), 0..6), any::<u16>()).prop_map(|(s, junk, at)| {
@@ -197,7 +206,7 @@ impl Prop for C18 {
 			}
 			Case { input: Input::from_bytes(b) }
 		});
-		prop_oneof![4 => clean, 4 => shaped, 2 => mutants, 1 => other, 1 => bytes].boxed()
+		prop_oneof![8 => clean, 8 => shaped, 4 => mutants, 2 => other, 2 => bytes, 1 => long].boxed()
 	}
 
 	fn check(case: &Case, cx: &mut Ctx) -> Result<(), Failure> {
